@@ -123,10 +123,21 @@ def build_roots(tier):
         add('r_inv2_rgb_%s' % ty, 'pub fn r_inv2_rgb_%s(c: Rgb<%s>) -> Rgb<%s> { c.inverted_rgb().inverted_rgb() }' % (ty, ty, ty), kind='exact', e=['a0.r', 'a0.g', 'a0.b'])
     add('r_avg_rgba', 'pub fn r_avg_rgba(c: Rgba<f32>) -> f32 { c.average_rgb() }', kind='avg')
     add('r_avg_rgb', 'pub fn r_avg_rgb(c: Rgb<f32>) -> f32 { c.average_rgb() }', kind='avg')
+    # integer component types: one truncating division of the sum (an identity over the reals such as r/3+g/3+b/3 is not the same function)
+    for ty in ('u8', 'u16', 'u32', 'i32', 'u64'):
+        add('r_avg_rgba_%s' % ty, 'pub fn r_avg_rgba_%s(c: Rgba<%s>) -> %s { c.average_rgb() }' % (ty, ty, ty), kind='avgi')
+        add('r_avg_rgb_%s' % ty, 'pub fn r_avg_rgb_%s(c: Rgb<%s>) -> %s { c.average_rgb() }' % (ty, ty, ty), kind='avgi')
     for ty, full in FULLS.items():
         add('r_full_%s' % ty, 'pub fn r_full_%s() -> %s { <%s as ColorComponent>::full() }' % (ty, ty, ty), kind='consts', e=[C(full)])
         if ty not in ('f32', 'f64'):
             add('r_full_w%s' % ty, 'pub fn r_full_w%s() -> core::num::Wrapping<%s> { <core::num::Wrapping<%s> as ColorComponent>::full() }' % (ty, ty, ty), kind='consts', e=[C(full)])
+    # matrix size conversions themselves (the grow direction is what the commutation law uses; shrinking keeps the upper-left block)
+    for L in ('Rows', 'Cols'):
+        for a in (2, 3, 4):
+            for b in (2, 3, 4):
+                if a == b: continue
+                nm = 'r_resize_%s_%d_%d' % (L, a, b)
+                add(nm, 'pub fn %s(m: %s%d<f32>) -> %s%d<f32> { %s%d::from(m) }' % (nm, L, a, L, b, L, b), kind='resize', l=L, a=a, b=b)
     # embedding commutes with multiplication
     for L in ('Rows', 'Cols'):
         for (small, big) in ((2, 3), (2, 4), (3, 4)):
@@ -152,7 +163,7 @@ def run(ctx):
         k = m['kind']; key = 'c19/' + r.name[2:]; w = r.code
         try:
             p = rs.only()
-        except AssertionError as e:
+        except (AssertionError, KeyError, ValueError, TypeError, IndexError, ZeroDivisionError, AttributeError) as e:
             ctx.ob(key + '/paths', False, 'branch-free', w, 'one path', str(e)); continue
         if k == 'conv':
             full = C(FULLS.get(m['ty'], 1))
@@ -188,6 +199,13 @@ def run(ctx):
                 ctx.ob(key + '/alpha-untouched', term is not None and term[0] == 'in' and term[1] == 'a0.a', 'perm: alpha is passed through unmodified (an unmodified copy of the input element, not a value recomputed from it)', w, 'input leaf a0.a', term)
         elif k == 'avg':
             ctx.same(key, p.ret, (sym('a0.r') + sym('a0.g') + sym('a0.b')) / C(3), 'alg=: average_rgb = (r+g+b)/3', w)
+        elif k == 'avgi':
+            ctx.same(key, p.ret, fn('idiv', sym('a0.r') + sym('a0.g') + sym('a0.b'), C(3)), 'alg=: integer average_rgb = (r+g+b) div 3 (one truncating division of the sum)', w)
+        elif k == 'resize':
+            a, b = m['a'], m['b']
+            Mx = msyms('a0', m['l'], a)
+            E = [[Mx[i][j] if i < a and j < a else C(1 if i == j else 0) for j in range(b)] for i in range(b)]
+            grid_eq(ctx, key, mgrid(p.ret, m['l'], b), E, 'perm: matrix size conversion keeps element (i,j) of the common block and completes with the identity', w)
         elif k == 'embed':
             s, b = m['small'], m['big']
             Mx = msyms('a0', m['l'], s); v = vsyms('a1', vecn(s))
